@@ -16,10 +16,12 @@
 (*             (token count / document of every chunk); documents with the *)
 (*             same score may come in any order (map iteration + unstable  *)
 (*             sort in the Go code): the step picks any.                   *)
-(* The state reached when the expansion loop exits prints, on the CORPUS   *)
-(* channel, the store calls the implementation has to make (VGetRelations  *)
-(* and VGet sequences) and, per budget and profile, the set of admissible  *)
-(* (selected chunks, TotalTokens) results.                                 *)
+(* When the expansion loop exits the step tabulates (variable `table`) the *)
+(* set of admissible (selected chunks, TotalTokens) results per profile    *)
+(* and budget; that state prints, on the CORPUS channel, the store calls   *)
+(* the implementation has to make (VGetRelations and VGet sequences) and   *)
+(* the table.  The binding accepts a real run iff it equals one admitted   *)
+(* outcome.                                                                *)
 (***************************************************************************)
 EXTENDS Integers, Sequences, FiniteSets, TLC, Json, SequencesExt, FiniteSetsExt, Functions
 
@@ -113,7 +115,9 @@ BfsTargets(st, targets, nd) ==
     IF targets = <<>> THEN st
     ELSE LET t == Head(targets) IN
          IF t \in DOMAIN st.vis
-         THEN BfsTargets(IF nd < st.vis[t]
+         THEN \* "found better path": updateChunkScore would also lower the candidate's depth; Inv_NoBetterPath
+              \* shows the branch is dead (BFS discovers in depth order), so only the flag is modelled
+              BfsTargets(IF nd < st.vis[t]
                          THEN [st EXCEPT !.vis = [st.vis EXCEPT ![t] = nd], !.upd = TRUE]
                          ELSE st,
                          Tail(targets), nd)
